@@ -151,7 +151,7 @@ impl Collect for K {
     fn register_callsite(&self, m: &'static Metadata<'static>) -> Interest {
         let _ = m;
         match self.stage {
-            0 | 4 => Interest::always(),
+            0 | 4..=7 => Interest::always(),
             1 => Interest::never(),
             _ => Interest::sometimes(),
         }
@@ -160,10 +160,14 @@ impl Collect for K {
         self.stage != 1 && self.stage != 2
     }
     fn max_level_hint(&self) -> Option<LevelFilter> {
-        if self.stage == 4 {
-            Some(LevelFilter::ERROR)
-        } else {
-            None
+        // stages 4..7: the hint caps the level at ERROR, WARN, INFO, DEBUG (every boundary between
+        // two adjacent levels decides whether a shorthand macro emits at its own level)
+        match self.stage {
+            4 => Some(LevelFilter::ERROR),
+            5 => Some(LevelFilter::WARN),
+            6 => Some(LevelFilter::INFO),
+            7 => Some(LevelFilter::DEBUG),
+            _ => None,
         }
     }
     fn new_span(&self, a: &span::Attributes<'_>) -> span::Id {
@@ -223,7 +227,7 @@ fn stage_runner(job: &[u8]) -> Vec<u8> {
                 }
                 let enabled = match stage {
                     0 | 3 => true,
-                    4 => c.level <= 1,
+                    4..=7 => c.level <= stage - 3,
                     _ => false,
                 };
                 if c.kind == "enabled" {
@@ -356,7 +360,7 @@ pub fn run(args: &Args) -> i32 {
     }
     let mut evals = 0u64;
     let mut distinct = BTreeSet::new();
-    for stage in 0..5u8 {
+    for stage in 0..8u8 {
         match run_isolated(stage_runner, &[stage], Duration::from_secs(120)) {
             Outcome::Ok(b) => {
                 let r: StageRes = serde_json::from_slice(&b).unwrap();
@@ -413,9 +417,9 @@ pub fn run(args: &Args) -> i32 {
     rep.cov("evaluations", evals + schedules);
     rep.cov("distinct_nontrivial", distinct.len() as u64 + schedules);
     rep.cov("callsites", CASES.len() as u64);
-    rep.cov("stages", 5u64);
+    rep.cov("stages", 8u64);
     rep.cov("exhaustive", true);
-    rep.cov("rule", "generated corpus: {event!, trace!..error!} x 7 prefix forms (none, target:, parent:, name:, combinations) x 12 field-list shapes (k = v, format message with args and captures, % and ? sigils, shorthand, dotted names, dotted shorthand, string-literal and r# names, Empty, trailing comma) + {span!, trace_span!..error_span!} x 4 prefix forms x the message-free shapes + every Value type (all integer widths, NonZero*, Wrapping, f32/f64 incl. NaN/inf/-0, bool, str/String incl. empty/astral/RTL/NUL, bytes, error chains, Display/Debug wrappers, references, Box, format_args) with boundary values in events and spans + Span::record of declared and undeclared fields + enabled!; every callsite is hit twice (first hit, cached interest) under 5 collector stages, each stage in a fresh process. A case is distinct by (callsite, stage).");
+    rep.cov("rule", "generated corpus: {event!, trace!..error!} x 8 prefix forms (none, target:, parent:, name:, combinations) x 16 field-list shapes (braced field lists followed by a message, k = v, format message with args and captures, % and ? sigils, shorthand, dotted names, dotted shorthand, string-literal and r# names, Empty, trailing comma) + {span!, trace_span!..error_span!} x 4 prefix forms x the message-free shapes + every Value type (all integer widths, NonZero*, Wrapping, f32/f64 incl. NaN/inf/-0, bool, str/String incl. empty/astral/RTL/NUL, bytes, error chains, Display/Debug wrappers, references, Box, format_args) with boundary values in events and spans + Span::record of declared and undeclared fields + enabled!; every callsite is hit twice (first hit, cached interest) under 8 collector stages (enabled / static never / dynamic false / dynamic true / level hint capped at ERROR, WARN, INFO, DEBUG), each stage in a fresh process. A case is distinct by (callsite, stage).");
     rep.sample(json!({"callsite": CASES[CASES.len() / 2].name, "expected": CASES[CASES.len() / 2].exp.iter().map(|e| format!("{}:{}={}", e.name, e.method, e.value)).collect::<Vec<_>>()}));
     rep.sample(json!({"callsite": CASES[3].name, "expected": CASES[3].exp.iter().map(|e| format!("{}:{}={}", e.name, e.method, e.value)).collect::<Vec<_>>()}));
     rep.assume("the compile-time maximum level stage is exercised by a separate binary (engine/h_static, tracing feature max_level_info) on 5 levels x {event, span, enabled!} x 2 collector modes x 2 hits");
